@@ -78,10 +78,14 @@ class RealLease:
         self.client._reset_internals()          # what connect() does first: creates the queues and the initial zero lease
         self.refused = set()
         self.keep = []
+        self.made = []            # request ids in the order the application made them
+        self.leases = []          # (n, ttl, at) of every LEASE that arrived
+        self.sent_log = []        # (rid, time, index of the current lease or -1)
 
     def request(self, rid):
         from rsocket.payload import Payload
         p = Payload(bytes([rid]) * 4)
+        self.made.append(rid)
         try:
             with _running():
                 k = rid % 3
@@ -96,14 +100,59 @@ class RealLease:
                     self.keep.append(pub)
         except asyncio.QueueFull:
             self.refused.add(rid)
+        self._note_sent()
+
+    def _note_sent(self):
+        known = set(r for r, _, _ in self.sent_log)
+        for r in self.sent():
+            if r not in known:
+                self.sent_log.append((r, self.clock.t, len(self.leases) - 1))
 
     def lease(self, n, ttl):
         from rsocket.frame import LeaseFrame
         f = LeaseFrame()
         f.number_of_requests = n
         f.time_to_live = ttl * TICK_MS
+        self.leases.append((n, ttl, self.clock.t))
         with _running():
             _drive(self.client.handle_lease(f))
+        self._note_sent()
+
+    def oracle(self):
+        """the clauses of C14 (the invariants of Lease.tla) evaluated on what the real requester did"""
+        s, p = self.sent(), self.pending()
+        if len(set(s)) != len(s) or set(s) & set(p):
+            return ('C14.each_request_sent_at_most_once', 'send queue %s, held back %s' % (s, p))
+        per = {}
+        for (r, t, li) in self.sent_log:
+            if li < 0:
+                return ('C14.no_request_before_first_lease', 'request %d entered the send queue at time %d before any LEASE arrived' % (r, t))
+            n, ttl, at = self.leases[li]
+            if not (at <= t < at + ttl):
+                return ('C14.none_after_ttl', 'request %d entered the send queue at time %d under the lease granted at %d for %d ticks' % (r, t, at, ttl))
+            per[li] = per.get(li, 0) + 1
+            if per[li] > n:
+                return ('C14.count_within_grant', '%d requests were sent under the lease granted at %d for %d requests' % (per[li], at, n))
+        order = [r for r in self.made if r not in self.refused]
+        if s != [r for r in order if r in set(s)] or p != [r for r in order if r in set(p)] or (s and p and max(s) > min(p)):
+            return ('C14.fifo_release', 'made %s; send queue %s; held back %s' % (order, s, p))
+        lost = [r for r in order if r not in s and r not in p]
+        if lost:
+            return ('C14.retained_until_released', 'requests %s are neither sent nor held back' % lost)
+        if self.qsize == 0 and self.refused:
+            return ('C14.retained_up_to_queue_size', 'calls %s were refused although the queue is unbounded' % sorted(self.refused))
+        if self.qsize and len(p) > self.qsize:
+            return ('C14.retained_up_to_queue_size', '%d requests held back, queue size %d' % (len(p), self.qsize))
+        if self.qsize and self.refused:
+            # a call may only be refused while the queue is full: checked at the moment of the call through the spec comparison
+            pass
+        if p and self.leases:
+            n, ttl, at = self.leases[-1]
+            used = per.get(len(self.leases) - 1, 0)
+            if self.clock.t < at + ttl and used < n:
+                return ('C14.released_when_lease_allows', 'requests %s are held back although the lease granted at %d (%d requests, %d ticks) has %d left at time %d' % (
+                    p, at, n, ttl, n - used, self.clock.t))
+        return None
 
     def tick(self):
         self.clock.t += 1
@@ -145,18 +194,13 @@ def _apply(real, name, args, before):
 
 
 def _compare(real, exp, obs):
+    bad = real.oracle()
+    if bad:
+        return bad
     s, p = real.sent(), real.pending()
-    if s != exp['sent']:
-        extra = [r for r in s if r not in exp['sent']]
-        if extra:
-            return ('C14.sent_only_when_lease_allows', 'requests %s are in the send queue, the specification allows %s (time %d)' % (s, exp['sent'], exp['now']))
-        if sorted(s) != s or len(set(s)) != len(s):
-            return ('C14.fifo_release', 'requests left in the order %s, the specification says %s' % (s, exp['sent']))
-        return ('C14.released_when_lease_allows', 'requests %s are in the send queue, the specification says %s (time %d)' % (s, exp['sent'], exp['now']))
-    if p != exp['pending']:
-        return ('C14.retained_in_order', 'requests held back %s, the specification says %s' % (p, exp['pending']))
-    if real.refused != exp['refused']:
-        return ('C14.retained_up_to_queue_size', 'refused calls %s, the specification says %s' % (sorted(real.refused), sorted(exp['refused'])))
+    if s != exp['sent'] or p != exp['pending'] or real.refused != exp['refused']:
+        return ('DRIFT', 'send queue %s / held back %s / refused %s, the specification says %s / %s / %s (time %d)' % (
+            s, p, sorted(real.refused), exp['sent'], exp['pending'], sorted(exp['refused']), exp['now']))
     return None
 
 
